@@ -1,6 +1,7 @@
 package props
 
 import (
+	"go/token"
 	"strings"
 
 	"bifrostverify/an"
@@ -96,6 +97,7 @@ func c13(c *an.Check) {
 	noUseAfterScrub(c, []*ssa.Function{c.P.Func("peer", "", "DeriveKey")}, nil)
 	ed25519PrivateKeyDecodeGates(c)
 	p := c.P
+	scrubOwnStorage(c, "peer key derivation wipes only its own buffers", []*ssa.Function{p.Func("peer", "", "DeriveKey"), p.Func("peer", "", "DeriveEd25519Key")})
 	dk := p.Func("peer", "", "DeriveKey")
 	de := p.Func("peer", "", "DeriveEd25519Key")
 	if dk == nil || de == nil {
@@ -159,6 +161,34 @@ func c13(c *an.Check) {
 			}
 			if okIn && !p.DependsOn(e.Call.Args[1], func(x ssa.Value) bool { return an.IsParam(x, 0) }) {
 				okIn, why = false, "the ephemeral public key does not depend on the context"
+			}
+		}
+		// the context is mixed into the key material byte by byte: every in-place xor on the ECDH material combines a
+		// material byte with a context byte (x ^ x would erase the only place the private key enters)
+		isECDH := func(x ssa.Value) bool { return an.ResultCallTo(x, an.X("crypto/ecdh", "PrivateKey", "ECDH")) != nil }
+		elemOf := func(v ssa.Value) ssa.Value {
+			if u, ok := v.(*ssa.UnOp); ok && u.Op == token.MUL {
+				if ia, ok := u.X.(*ssa.IndexAddr); ok {
+					return ia.X
+				}
+			}
+			return nil
+		}
+		for _, b := range dk.Blocks {
+			for _, ins := range b.Instrs {
+				x, isBin := ins.(*ssa.BinOp)
+				if !isBin || x.Op != token.XOR {
+					continue
+				}
+				bx, by := elemOf(x.X), elemOf(x.Y)
+				fromMat := func(v ssa.Value) bool { return v != nil && p.DependsOn(v, isECDH) }
+				fromCtx := func(v ssa.Value) bool {
+					cv, isConv := v.(*ssa.Convert)
+					return isConv && an.IsParam(cv.X, 0)
+				}
+				if okIn && !((fromMat(bx) && fromCtx(by)) || (fromMat(by) && fromCtx(bx))) {
+					okIn, why = false, "the xor at "+p.Pos(x.Pos())+" does not combine a key-material byte with a context byte (x ^ x erases the key material: different keys derive the same output)"
+				}
 			}
 		}
 		// output: Digest().Read(out)
